@@ -333,3 +333,83 @@ Example C05_vmsteps_nonvacuous :
   | None => False
   end.
 Proof. exact BrVMSteps.run_ex_prog_decodes. Qed.
+
+(* ---- the BYTE-LEVEL functions of compiler/compiler.go, regenerated (gen/GenAssemble.v; DSL + interpreter BC/AsmRules.v) ---- *)
+(* emit, makeConstant, placeholder, patchJump, calcBackwardJump and encode are read statement by statement (limit tests,
+   panics, the index map, the two byte stores, binary.LittleEndian.PutUint16) together with the skeleton of Compile (deferred
+   recover, fresh maps, Program{Bytecode, Constants, Locations}).  Bridge/BrAssemble.v proves each regenerated body equal,
+   for all states and arguments, to the Go-shaped model function of BC/Assemble.v (go_emit ...), and BC/AsmDriveProofs.v
+   proves that driving an item list through those functions the way the Go compiler calls them (placeholder at a forward
+   jump, patchJump when the target position is reached, calcBackwardJump of the target for a backward one) is asm. *)
+Require Import X.BC.AsmRules X.BC.AsmRulesProofs X.BC.AsmDriveProofs X.gen.GenAssemble X.Bridge.BrAssemble.
+
+Theorem C05_genassemble_recognised : AsmRules.recognised GenAssemble.asm_src = true.
+Proof. exact genassemble_recognised. Qed.
+Print Assumptions C05_genassemble_recognised.
+
+(* one statement per Go function: interpretation of the regenerated body = the model function, all states, all arguments *)
+Theorem C05_source_funcs_are_model : funcs_eq (AsmRules.src_funcs GenAssemble.asm_src) go_funcs.
+Proof. exact source_funcs_are_model. Qed.
+Print Assumptions C05_source_funcs_are_model.
+
+(* the hand-written Go-shaped functions, driven over any item list whose forward jumps are all patched, are the model
+   assembler: same bytes, same pool, same Locations, failure exactly when asm fails (induction over the item list) *)
+Theorem C05_model_functions_are_asm : forall its, fwd_closed its 0 = true ->
+  match drive go_funcs its cs0 [] with
+  | GOk (s, pend) => pend = [] /\ asm its [] 0%Z = Some (cs_bytecode s, cs_constants s, cs_locations s)
+  | GPanic => asm its [] 0%Z = None
+  | GStuck => False
+  end.
+Proof. exact drive_go_is_asm. Qed.
+Print Assumptions C05_model_functions_are_asm.
+
+(* assembling an item list with the REGENERATED functions inside the regenerated skeleton of Compile gives the bytes / pool /
+   Locations of the model assembler, and the recovered error exactly when the model assembler fails.  Side condition
+   (decidable): every forward jump lands where an item starts or at the end - true of all compiled code (C05_compile_wf) *)
+Theorem C05_model_assembler_is_source : forall its, fwd_closed its 0 = true ->
+  AsmRules.src_assemble GenAssemble.asm_src its = cres_of_option (assemble_items its).
+Proof. exact model_assembler_is_source. Qed.
+Print Assumptions C05_model_assembler_is_source.
+
+(* for every compilable expression the side condition holds (C05_compile_wf), so: compiler.Compile at byte level, as the
+   regenerated byte-level functions compute it on the item list of the model compiler, is compile_bytes - together with
+   C05_compile_bytes_from_source_schemes both halves of the compiler (which calls are made, what each call does) are the source *)
+Theorem C05_compiled_items_fwd_closed : forall mapenv c e, compilable e = true ->
+  fwd_closed (compile_items_program mapenv c e) 0 = true.
+Proof. exact X.BC.AsmClosedProofs.compiled_items_fwd_closed. Qed.
+Print Assumptions C05_compiled_items_fwd_closed.
+
+Theorem C05_compile_bytes_is_source_assembler : forall mapenv c e, compilable e = true ->
+  AsmRules.src_assemble GenAssemble.asm_src (compile_items_program mapenv c e) = cres_of_option (compile_bytes mapenv c e).
+Proof. exact compile_bytes_is_source_assembler. Qed.
+Print Assumptions C05_compile_bytes_is_source_assembler.
+
+(* the reflect primitives of the DSL are the classification BC/Assemble.v uses (slice_or_map, float_zero, nil interface) *)
+Theorem C05_reflect_primitives_are_models : forall c,
+  match AsmRules.const_kind c with
+  | None => kind_panics c = true
+  | Some k =>
+      kind_panics c = false /\
+      match k with
+      | AsmRules.CKSlice | AsmRules.CKMap => const_slice_or_map c = true
+      | AsmRules.CKFloat32 | AsmRules.CKFloat64 =>
+          const_slice_or_map c = false /\ AsmRules.const_float_is_zero c = Some (const_float_zero c)
+      | AsmRules.CKOther => const_slice_or_map c = false /\ const_float_zero c = false
+      end
+  end.
+Proof. exact const_kind_spec. Qed.
+Print Assumptions C05_reflect_primitives_are_models.
+
+Example C05_model_assembler_is_source_nonvacuous :
+  fwd_closed (compile_items_program false CastInt64 c05_ex) 0 = true /\
+  exists p, AsmRules.src_assemble GenAssemble.asm_src (compile_items_program false CastInt64 c05_ex) = CProgram p /\
+            compile_bytes false CastInt64 c05_ex = Some p /\ p_consts p = c05_ex_pool.
+Proof. exact model_assembler_is_source_nonvacuous. Qed.
+
+(* a jump that is never patched keeps its placeholder: the side condition is needed (and the regenerated code, not the
+   model, is what leaves 255 255 there) *)
+Example C05_unpatched_jump_keeps_placeholder :
+  fwd_closed [AIns (IJump 5) noloc] 0 = false /\
+  AsmRules.src_assemble GenAssemble.asm_src [AIns (IJump 5) noloc] = CProgram (mkProg [14; 255; 255]%Z [] [(0%Z, noloc)]) /\
+  assemble_items [AIns (IJump 5) noloc] = Some (mkProg [14; 5; 0]%Z [] [(0%Z, noloc)]).
+Proof. vm_compute. repeat split; reflexivity. Qed.
